@@ -456,6 +456,16 @@ def check_C13(tier):
                     progs.append(p)
     if tier == "quick":
         progs = rnd.sample(progs, min(len(progs), 300))
+    # nested-child handles (a list / dict inside a buffered dict) against a second object on the same file
+    for cls in ("BufferedJSONDict", "MemoryBufferedJSONDict"):
+        safe = [m for m in MUT_D if m["op"] in ("setitem", "delitem", "update", "setdefault")]
+        chl = [m for m in MUT_L if m["op"] in ("append", "extend", "insert", "setitem", "clear", "reset")]
+        chd = [m for m in MUT_D if m["op"] in ("setitem", "delitem", "update", "clear", "reset")]
+        cps = [("child_l", a, b) for a in chl for b in safe] + [("child_d", a, b) for a in chd for b in safe]
+        for (h, a, b) in (rnd.sample(cps, 16) if tier == "quick" else cps):
+            for cap in (None, 0):
+                progs.append({"name": f"{cls}[cap={cap},child]:{h}.{a['op']}||other.{b['op']}", "cls": cls,
+                              "buffered": {"cap": cap}, "threads": {"t1": [(h, a)], "t2": [("other", b)]}})
     results = run_programs(run, progs, 2, 60 if tier == "quick" else 300)
     judge(run, "C13", results, ("lin", "deadlock", "exit", "size", "leak"))
     mres = threads_model(run, "C13", ["C09_WritersLinearizable"], tier, buffered_modes=(True,))
@@ -595,7 +605,7 @@ def replay_case(prop, case):
     run = common.Run(prop, "quick")
     judge(run, prop, [{"prog": prog, "runs": 1, "distinct": [res]}], ("lin", "deadlock", "leak", "exit", "size"))
     if run.violations:
-        print(f"VIOLATION property={prop} replay=(reproduced) {run.violations[0]['detail'][:600]}")
+        print(f"VIOLATION property={prop} replay={__import__('os').environ.get('VERIF_REPLAY_PATH', '-')} {run.violations[0]['detail'][:600]}")
         return 1
     print("not reproduced on this tree")
     return 0
